@@ -449,6 +449,11 @@ theorem dropQueueTail_cntLS (c : Cfg) (d : Nat) (s : St) (i : Nat) : cntLS (drop
   unfold dropQueueTail
   have h1 := foldl_workerFlush_cntLS c (s.queue.take d) { s with queue := [] } i
   have h2 := taskRows_take_le s.queue d i
+  have h3 : ∀ (b : Bool) (t : St), cntLS (flagIf b t) i = cntLS t i := by
+    intro b t; unfold flagIf; split
+    · exact SameMem.cntLS ⟨rfl, rfl, rfl, rfl⟩ i
+    · rfl
+  rw [h3]
   simp only [cntLS_eq, taskRows_nil, cnt_nil] at h1 ⊢
   omega
 
@@ -469,7 +474,7 @@ theorem bufClose_cntLS (c : Cfg) (s : St) (d : Nat) (i : Nat) : cntLS (bufClose 
 theorem shutAct_cntLS (c : Cfg) (d : Nat) (s : St) (a : ShutAct) (i : Nat) : cntLS (shutAct c d s a) i ≤ cntLS s i := by
   cases a with
   | purgeAll =>
-    show cntLS (if c.walOn then purgeAll s else s) i ≤ cntLS s i
+    show cntLS (if c.walOn && !(c.facts.purgeGuardedByFlag && s.flag) then purgeAll s else s) i ≤ cntLS s i
     split
     · exact Nat.le_of_eq ((purgeAll_mem s).cntLS i)
     · exact Nat.le_refl _
